@@ -34,18 +34,18 @@ type c12Ref struct {
 	mayGone map[string]bool
 }
 
-func ownerKey(o int) string { return fmt.Sprint(o) }
+func c12OwnerKey(o int) string { return fmt.Sprint(o) }
 
-func newC12Ref(k *c12Kind, s c12Seq) *c12Ref {
+func c12NewRef(k *c12Kind, s c12Seq) *c12Ref {
 	r := &c12Ref{k: k, links: map[[2]string]bool{}, exists: map[string]bool{}, mayGone: map[string]bool{}}
 	for _, p := range append(append([]int{}, s.Pre...), c12Sentinel) {
 		r.exists[fmt.Sprint("t", p)] = true
 	}
 	for _, b := range s.By {
-		r.links[[2]string{ownerKey(c12Bystander), fmt.Sprint("t", b)}] = true
+		r.links[[2]string{c12OwnerKey(c12Bystander), fmt.Sprint("t", b)}] = true
 	}
 	for _, b := range s.Own {
-		r.links[[2]string{ownerKey(c12Owner1), fmt.Sprint("t", b)}] = true
+		r.links[[2]string{c12OwnerKey(c12Owner1), fmt.Sprint("t", b)}] = true
 	}
 	return r
 }
@@ -53,25 +53,25 @@ func newC12Ref(k *c12Kind, s c12Seq) *c12Ref {
 func (r *c12Ref) add(o int, t string) {
 	if r.k.Class == "fk" {
 		for l := range r.links {
-			if l[1] == t && l[0] != ownerKey(o) {
+			if l[1] == t && l[0] != c12OwnerKey(o) {
 				delete(r.links, l)
 			}
 		}
 	}
 	if r.k.Card1 {
 		for l := range r.links {
-			if l[0] == ownerKey(o) && l[1] != t {
+			if l[0] == c12OwnerKey(o) && l[1] != t {
 				delete(r.links, l)
 			}
 		}
 	}
-	r.links[[2]string{ownerKey(o), t}] = true
+	r.links[[2]string{c12OwnerKey(o), t}] = true
 	r.exists[t] = true
 	delete(r.mayGone, t)
 }
 
 func (r *c12Ref) remove(o int, t string, unscoped bool) {
-	l := [2]string{ownerKey(o), t}
+	l := [2]string{c12OwnerKey(o), t}
 	if r.links[l] {
 		delete(r.links, l)
 		if unscoped {
@@ -82,7 +82,7 @@ func (r *c12Ref) remove(o int, t string, unscoped bool) {
 
 func (r *c12Ref) removeAll(o int, unscoped bool) {
 	for l := range r.links {
-		if l[0] == ownerKey(o) {
+		if l[0] == c12OwnerKey(o) {
 			r.remove(o, l[1], unscoped)
 		}
 	}
@@ -119,7 +119,7 @@ func (r *c12Ref) apply(op c12Op, owners []int, labels [][]string) {
 				}
 			}
 			for l := range r.links {
-				if l[0] == ownerKey(o) && !keep[l[1]] {
+				if l[0] == c12OwnerKey(o) && !keep[l[1]] {
 					r.remove(o, l[1], op.Unscoped)
 				}
 			}
@@ -150,7 +150,7 @@ func (r *c12Ref) linksOf(owners []int) []string {
 	out := []string{}
 	for l := range r.links {
 		for _, o := range owners {
-			if l[0] == ownerKey(o) {
+			if l[0] == c12OwnerKey(o) {
 				out = append(out, l[0]+"->"+l[1])
 			}
 		}
@@ -219,7 +219,7 @@ type c12Verdict struct {
 func c12Judge(s c12Seq, obs []c12Obs) (*c12Verdict, int) {
 	v, n, flags := c12JudgeF(s, obs)
 	if v != nil {
-		v.Flags = sortedKeys(flags)
+		v.Flags = c12SortedKeys(flags)
 	}
 	return v, n
 }
@@ -255,7 +255,7 @@ func c12Flags(s c12Seq, k *c12Kind, ref *c12Ref, op c12Op, labels [][]string, cu
 				mine[t] = true
 			}
 			for _, t := range labels[1-a] {
-				if !mine[t] && ref.links[[2]string{ownerKey(c12OwnerIDs(s)[a]), t}] {
+				if !mine[t] && ref.links[[2]string{c12OwnerKey(c12OwnerIDs(s)[a]), t}] {
 					flags["F12d-many2many-slice-replace-keeps-foreign-new"] = true
 				}
 			}
@@ -281,7 +281,7 @@ func c12JudgeF(s c12Seq, obs []c12Obs) (*c12Verdict, int, map[string]bool) {
 		handed[fmt.Sprint("t", b)] = 0 // held by the first operated owner from the start
 	}
 	k := c12KindByName(s.Kind)
-	ref := newC12Ref(k, s)
+	ref := c12NewRef(k, s)
 	owners := c12OwnerIDs(s)
 	decoy0 := "[1:1:other 2:2:other]"
 	judged := 0
@@ -338,7 +338,7 @@ func c12JudgeF(s c12Seq, obs []c12Obs) (*c12Verdict, int, map[string]bool) {
 			if k.Class == "bt" && s.Owners == 2 && o.CountE == "" {
 				tg := map[string]bool{}
 				for _, l := range wl {
-					tg[l[len(ownerKey(c12Owner1))+2:]] = true
+					tg[l[len(c12OwnerKey(c12Owner1))+2:]] = true
 				}
 				if len(tg) < len(wl) && int(o.Count) == len(tg) {
 					flags["F12b-belongs-to-count-of-shared-target"] = true
@@ -349,7 +349,7 @@ func c12JudgeF(s c12Seq, obs []c12Obs) (*c12Verdict, int, map[string]bool) {
 		wantT := map[string]bool{}
 		for l := range ref.links {
 			for _, ow := range owners {
-				if l[0] == ownerKey(ow) {
+				if l[0] == c12OwnerKey(ow) {
 					wantT[l[1]] = true
 				}
 			}
@@ -358,14 +358,14 @@ func c12JudgeF(s c12Seq, obs []c12Obs) (*c12Verdict, int, map[string]bool) {
 		for _, id := range o.Find {
 			gotT[lab(id)] = true
 		}
-		if o.FindE != "" || fmt.Sprint(sortedKeys(gotT)) != fmt.Sprint(sortedKeys(wantT)) {
-			return &c12Verdict{Step: step, What: "Find() differs from the linked records", Got: fmt.Sprint(sortedKeys(gotT), " ", o.FindE), Want: fmt.Sprint(sortedKeys(wantT)), Class: "find"}, judged, flags
+		if o.FindE != "" || fmt.Sprint(c12SortedKeys(gotT)) != fmt.Sprint(c12SortedKeys(wantT)) {
+			return &c12Verdict{Step: step, What: "Find() differs from the linked records", Got: fmt.Sprint(c12SortedKeys(gotT), " ", o.FindE), Want: fmt.Sprint(c12SortedKeys(wantT)), Class: "find"}, judged, flags
 		}
 		// 4. in-memory field of every operated record (each received every operation)
 		for i, ow := range owners {
 			w := map[string]bool{}
 			for l := range ref.links {
-				if l[0] == ownerKey(ow) {
+				if l[0] == c12OwnerKey(ow) {
 					w[l[1]] = true
 				}
 			}
@@ -373,8 +373,8 @@ func c12JudgeF(s c12Seq, obs []c12Obs) (*c12Verdict, int, map[string]bool) {
 			for _, id := range o.Mem[i] {
 				g[lab(id)] = true
 			}
-			if fmt.Sprint(sortedKeys(g)) != fmt.Sprint(sortedKeys(w)) {
-				return &c12Verdict{Step: step, What: fmt.Sprint("distinct records of the in-memory field of owner ", ow, " differ from its links"), Got: fmt.Sprint(sortedKeys(g), " raw=", o.MemRaw[i]), Want: fmt.Sprint(sortedKeys(w)), Class: "memory"}, judged, flags
+			if fmt.Sprint(c12SortedKeys(g)) != fmt.Sprint(c12SortedKeys(w)) {
+				return &c12Verdict{Step: step, What: fmt.Sprint("distinct records of the in-memory field of owner ", ow, " differ from its links"), Got: fmt.Sprint(c12SortedKeys(g), " raw=", o.MemRaw[i]), Want: fmt.Sprint(c12SortedKeys(w)), Class: "memory"}, judged, flags
 			}
 		}
 		// 5. links of another owner type (polymorphic decoys) are not touched
@@ -388,7 +388,7 @@ func c12JudgeF(s c12Seq, obs []c12Obs) (*c12Verdict, int, map[string]bool) {
 	return nil, judged, flags
 }
 
-func sortedKeys(m map[string]bool) []string {
+func c12SortedKeys(m map[string]bool) []string {
 	out := []string{}
 	for k := range m {
 		out = append(out, k)
@@ -407,10 +407,10 @@ type c12GenCfg struct {
 	Avoid    float64 // probability that a sequence stays outside the patterns of the listed findings
 }
 
-// genC12Seq: operation sequences with new (no key), new with preset key, existing, bystander-owned and duplicate
+// c12GenSeq: operation sequences with new (no key), new with preset key, existing, bystander-owned and duplicate
 // targets.  The generator simulates key allocation (database-assigned keys start at 21) so that later operations
 // can name records created by earlier ones.
-func genC12Seq(rng *rand.Rand, cfg c12GenCfg) c12Seq {
+func c12GenSeq(rng *rand.Rand, cfg c12GenCfg) c12Seq {
 	kn := cfg.Kinds[rng.Intn(len(cfg.Kinds))]
 	k := c12KindByName(kn)
 	s := c12Seq{Kind: kn, Owners: 1, Pre: []int{}, By: []int{}, Own: []int{}}
@@ -602,7 +602,7 @@ var c12Probes = map[string]string{
 }
 
 func c12RunProbes(r *Result) {
-	for _, id := range sortedProbeIDs() {
+	for _, id := range c12SortedProbeIDs() {
 		var s c12Seq
 		if err := json.Unmarshal([]byte(c12Probes[id]), &s); err != nil {
 			panic(err)
@@ -626,12 +626,12 @@ func c12RunProbes(r *Result) {
 	}
 }
 
-func sortedProbeIDs() []string {
+func c12SortedProbeIDs() []string {
 	m := map[string]bool{}
 	for id := range c12Probes {
 		m[id] = true
 	}
-	return sortedKeys(m)
+	return c12SortedKeys(m)
 }
 
 func c12E2E(r *Result, s c12Seq, suite string) {
@@ -680,7 +680,7 @@ func init() {
 		cfg := c12GenCfg{Kinds: kinds, Unscoped: 0.35, Slice: 0.4, MaxLen: 8, Avoid: 0.85}
 		c12RunProbes(r)
 		for i := 0; i < n && !expired(); i++ {
-			s := genC12Seq(rng, cfg)
+			s := c12GenSeq(rng, cfg)
 			r.Case("e2e-sequences", canon(s), c12SeqNontrivial(s))
 			c12Hist(r, "e2e", s)
 			if i%97 == 0 {
